@@ -1,44 +1,113 @@
-(* Props/C17Known.v — refutations: for each flag claimed `true` in Actual/RustSafetyActual.v a concrete Rust
-   file (and configuration) on which the faithful model differs from the specification, while the
-   faithful model with just that flag switched off agrees with it (closed by vm_compute).  The same
-   files are in corpus/C17 and are replayed on the implementation on every run. *)
+(* Props/C17Known.v — refutations: for each flag claimed `true` in Actual/RustSafetyActual.v and listed as known in
+   known.d/C17.json a concrete Rust file (with the source lines of its call rows, and a configuration) on which the
+   faithful model differs from the specification, while the faithful model with just that flag switched off agrees
+   with it (closed by vm_compute).  Every blocking-async report differs by its message (q_blocking_msg_line): the
+   other blocking witnesses are stated over the faithful model with that flag off.  The same files are in corpus/C17
+   and are replayed on the implementation on every run.  GENERATED from corpus/C17 by the snippet in selftest/C17/RESULTS.txt. *)
 From TL Require Import Lib.Base Model.RustSafetyTypes Model.RustSafetySpec Model.RustSafety Model.RustSafetyRun Actual.RustSafetyActual.
 
-Definition refutes (i : nat) (c : config) (w : list node) : Prop :=
-  report rust_actual c w <> spec_report c w /\ report (set_flag i false rust_actual) c w = spec_report c w.
+Definition refutes_from (base : rquirks) (i : nat) (ls : srclines) (c : config) (w : list node) : Prop :=
+  report base ls c w <> spec_report ls c w /\ report (set_flag i false base) ls c w = spec_report ls c w.
+Definition refutes := refutes_from rust_actual.
+Definition refutes_b := refutes_from (set_flag 9 false rust_actual).
 Ltac refute := split; [vm_compute; discriminate|vm_compute; reflexivity].
 
-(* fn f() { println!("{}", v0.unwrap()); } *)
-Definition w_macro_opaque : list node := [N (KFn [] false "f") [N KStmt [N (KMacro "println") [N (KMethod 1 19 1 "unwrap") [N (KId "v0") []]]]]].
-Theorem C17_macro_opaque_refuted : refutes 0 (mkcfg [] [] []) w_macro_opaque.
+(*
+async fn f() {
+    fs::read_to_string(v0);
+}
+*)
+Definition w_blocking_msg_line : list node := [N (KFn [] true "f") [N KStmt [N (KCall 1 4 ["fs"; "read_to_string"]) [N (KId "v0") []]]]].
+Definition l_blocking_msg_line : srclines := [(1, "    fs::read_to_string(v0);")].
+Theorem C17_blocking_msg_line_refuted : refutes 9 l_blocking_msg_line (mkcfg [] [] []) w_blocking_msg_line.
 Proof. refute. Qed.
 
-(* #[cfg(not(test))] fn f() { v0.unwrap(); } *)
-Definition w_test_attr_substring : list node := [N (KFn [SAttr "#[cfg(not(test))]"] false "f") [N KStmt [N (KMethod 2 4 2 "unwrap") [N (KId "v0") []]]]].
-Theorem C17_test_attr_substring_refuted : refutes 1 (mkcfg [] [] []) w_test_attr_substring.
-Proof. refute. Qed.
-
-(* #[cfg(all(test, feature = "slow"))] mod tests1 { fn f() { v0.unwrap(); } } *)
+(*
+#[cfg(all(test, feature = "slow"))]
+mod tests1 {
+    fn f() {
+        v0.unwrap();
+    }
+}
+*)
 Definition w_cfg_test_literal : list node := [N (KMod [SAttr "#[cfg(all(test, feature = ""slow""))]"]) [N (KFn [] false "f") [N KStmt [N (KMethod 3 8 3 "unwrap") [N (KId "v0") []]]]]].
-Theorem C17_cfg_test_literal_refuted : refutes 2 (mkcfg [] [] []) w_cfg_test_literal.
+Definition l_cfg_test_literal : srclines := [(3, "        v0.unwrap();")].
+Theorem C17_cfg_test_literal_refuted : refutes 2 l_cfg_test_literal (mkcfg [] [] []) w_cfg_test_literal.
 Proof. refute. Qed.
 
-(* fn f() { fs::read(v0) <newline> .unwrap(); } *)
+(*
+fn f() {
+    fs::read(v0)
+        .unwrap();
+}
+*)
 Definition w_chain_start_line : list node := [N (KFn [] false "f") [N KStmt [N (KMethod 1 4 2 "unwrap") [N (KCall 1 4 ["fs"; "read"]) [N (KId "v0") []]]]]].
-Theorem C17_chain_start_line_refuted : refutes 4 (mkcfg [] [] []) w_chain_start_line.
+Definition l_chain_start_line : srclines := [(1, "    fs::read(v0)"); (2, "        .unwrap();")].
+Theorem C17_chain_start_line_refuted : refutes 4 l_chain_start_line (mkcfg [] [] []) w_chain_start_line.
 Proof. refute. Qed.
 
-(* fn f() { for i in v0.clone() { v1; } v0; } *)
-Definition w_for_header_in_loop : list node := [N (KFn [] false "f") [N KStmt [N (KLoop LFor "i") [N (KMethod 1 13 1 "clone") [N (KId "v0") []]; N KStmt [N (KId "v1") []]]]; N KStmt [N (KId "v0") []]]].
-Theorem C17_for_header_in_loop_refuted : refutes 5 (mkcfg [] [] []) w_for_header_in_loop.
-Proof. refute. Qed.
-
-(* fn f() { loop { v1.clone().clone(); } }  with clone-abuse: {detect_clone_chain: false} *)
+(*
+fn f() {
+    loop {
+        v1.clone().clone();
+    }
+}
+*)
 Definition w_clone_first_pattern : list node := [N (KFn [] false "f") [N KStmt [N (KLoop LLoop "") [N KStmt [N (KMethod 2 8 2 "clone") [N (KMethod 2 8 2 "clone") [N (KId "v1") []]]]]]]].
-Theorem C17_clone_first_pattern_refuted : refutes 6 (mkcfg [] [("detect_clone_chain", false)] []) w_clone_first_pattern.
+Definition l_clone_first_pattern : srclines := [(2, "        v1.clone().clone();")].
+Theorem C17_clone_first_pattern_refuted : refutes 6 l_clone_first_pattern (mkcfg [] [("detect_clone_chain", false)] []) w_clone_first_pattern.
 Proof. refute. Qed.
 
-(* async fn f() { TcpStream::connect(v0); }   (a fix, e1a1fd7, was tried and undone by a07d81a) *)
+(*
+fn f() {
+    for i in v0.clone() {
+        v1;
+    }
+    v0;
+}
+*)
+Definition w_for_header_in_loop : list node := [N (KFn [] false "f") [N KStmt [N (KLoop LFor "i") [N (KMethod 1 13 1 "clone") [N (KId "v0") []]; N KStmt [N (KId "v1") []]]]; N KStmt [N (KId "v0") []]]].
+Definition l_for_header_in_loop : srclines := [(1, "    for i in v0.clone() {")].
+Theorem C17_for_header_in_loop_refuted : refutes 5 l_for_header_in_loop (mkcfg [] [] []) w_for_header_in_loop.
+Proof. refute. Qed.
+
+(*
+fn f() {
+    println!("{}", v0.unwrap());
+}
+*)
+Definition w_macro_opaque : list node := [N (KFn [] false "f") [N KStmt [N (KMacro "println") [N (KMethod 1 19 1 "unwrap") [N (KId "v0") []]]]]].
+Definition l_macro_opaque : srclines := [(1, "    println!(""{}"", v0.unwrap());")].
+Theorem C17_macro_opaque_refuted : refutes 0 l_macro_opaque (mkcfg [] [] []) w_macro_opaque.
+Proof. refute. Qed.
+
+(*
+async fn f() {
+    TcpStream::connect(v0);
+}
+*)
 Definition w_net_bare_type : list node := [N (KFn [] true "f") [N KStmt [N (KCall 1 4 ["TcpStream"; "connect"]) [N (KId "v0") []]]]].
-Theorem C17_net_bare_type_refuted : refutes 7 (mkcfg [] [] []) w_net_bare_type.
+Definition l_net_bare_type : srclines := [(1, "    TcpStream::connect(v0);")].
+Theorem C17_net_bare_type_refuted : refutes_b 7 l_net_bare_type (mkcfg [] [] []) w_net_bare_type.
+Proof. refute. Qed.
+
+(*
+#[cfg(not(test))]
+fn f() {
+    v0.unwrap();
+}
+*)
+Definition w_test_attr_substring : list node := [N (KFn [SAttr "#[cfg(not(test))]"] false "f") [N KStmt [N (KMethod 2 4 2 "unwrap") [N (KId "v0") []]]]].
+Definition l_test_attr_substring : srclines := [(2, "    v0.unwrap();")].
+Theorem C17_test_attr_substring_refuted : refutes 1 l_test_attr_substring (mkcfg [] [] []) w_test_attr_substring.
+Proof. refute. Qed.
+
+(*
+async fn f() {
+    rt.spawn_blocking(|| fs::read(v0));
+}
+*)
+Definition w_wrapper_method_form : list node := [N (KFn [] true "f") [N KStmt [N (KMethod 1 4 1 "spawn_blocking") [N (KId "rt") []; N (KClosure "") [N (KCall 1 25 ["fs"; "read"]) [N (KId "v0") []]]]]]].
+Definition l_wrapper_method_form : srclines := [(1, "    rt.spawn_blocking(|| fs::read(v0));")].
+Theorem C17_wrapper_method_form_refuted : refutes_b 8 l_wrapper_method_form (mkcfg [] [] []) w_wrapper_method_form.
 Proof. refute. Qed.
